@@ -162,8 +162,10 @@ def inv_step(R, sp, prefix="Inv(S')"):
     return prove_list(R, sp, lambda st, act, ns, ts: H.inv(ns, None), prefix=prefix + ": ", guard=not_last)
 
 
-def inv_reset(R, H, nkeys=256):
-    """Inv(reset(key)) for a symbolic key under the jax.random stubs"""
+def inv_reset(R, H, nkeys=256, prove_inv=True):
+    """Inv(reset(key)) for a symbolic key under the jax.random stubs.  prove_inv=False: only encode reset (C01/C04 attach their own
+    obligations to the returned state/timestep); the base case Inv(reset) of the induction is discharged by C07 and C10, which run
+    the same encoding - repeating the (Maze: 50 s per conjunct) generator queries in four properties bought nothing."""
     # RESET_UNROLL (optional harness attribute): a tighter loop bound for reset than the default 20; sound because the
     # unwinding assertion below stays an obligation (Maze 3x5: 6 iterations suffice and the queries get ~3x cheaper)
     ctx = Ctx(max_unroll=getattr(H, "RESET_UNROLL", None) or max(H.UNROLL, 20))
@@ -180,6 +182,9 @@ def inv_reset(R, H, nkeys=256):
             return bool(vals[name]), {"config": H.cfg, "obligation": name, "state": _brief(s_np)}
         return C.reset_replayer(H.env.reset, ctx, key, lambda out: pred(out[0], out[1]), nkeys)
     R.reach("reset", A)
+    if not prove_inv:
+        R.note(f"{H.cfg}: base case Inv(reset) of the induction is discharged by C07/C10 (same encoding), not repeated here")
+        return ctx, key, st, ts
     for n, v in obs:
         R.prove(n, A, v.term() if not v.conc else bool(v), replay=mk(n))
     return ctx, key, st, ts
